@@ -460,3 +460,75 @@ pub fn counter_set_values(options: &BenchOptions<'_>) -> [Option<u64>; 4] {
 pub fn known_parallelism() -> usize {
     crate::util::known_parallelism().get()
 }
+
+// ----------------------------------------------------------- runner events
+
+fn milli(v: f64) -> i64 {
+    if v.is_finite() {
+        (v * 1000.0).round() as i64
+    } else {
+        -999_999
+    }
+}
+
+fn clamp(v: u128) -> i128 {
+    if v > 2_000_000_000 {
+        -1
+    } else {
+        v as i128
+    }
+}
+
+impl StatsData {
+    /// JSON with times in picoseconds (`-1` above 2·10^9) and floating
+    /// figures as `round(1000 * x)` (`-999999` if not finite).
+    pub fn json(&self) -> String {
+        let set_f = |s: &Set<f64>| {
+            format!(
+                "[{},{},{},{}]",
+                milli(s.fastest),
+                milli(s.slowest),
+                milli(s.median),
+                milli(s.mean)
+            )
+        };
+        let counts: Vec<String> = self
+            .counts
+            .iter()
+            .map(|c| match c {
+                Some(s) => format!(
+                    "[{},{},{},{}]",
+                    s.fastest, s.slowest, s.median, s.mean
+                ),
+                None => "[]".to_owned(),
+            })
+            .collect();
+        format!(
+            "{{\"sample_count\":{},\"iter_count\":{},\"time\":[{},{},{},{}],\"max_alloc_count\":{},\"max_alloc_size\":{},\"tally_count\":[{},{},{},{}],\"tally_size\":[{},{},{},{}],\"counts\":[{}]}}",
+            self.sample_count,
+            self.iter_count,
+            clamp(self.time.fastest),
+            clamp(self.time.slowest),
+            clamp(self.time.median),
+            clamp(self.time.mean),
+            set_f(&self.max_alloc_count),
+            set_f(&self.max_alloc_size),
+            set_f(&self.tally_count[0]),
+            set_f(&self.tally_count[1]),
+            set_f(&self.tally_count[2]),
+            set_f(&self.tally_count[3]),
+            set_f(&self.tally_size[0]),
+            set_f(&self.tally_size[1]),
+            set_f(&self.tally_size[2]),
+            set_f(&self.tally_size[3]),
+            counts.join(","),
+        )
+    }
+}
+
+/// Logs the statistics the runner is about to print for a leaf.
+pub(crate) fn leaf_stats_event(stats: &Stats) {
+    super::event(
+        super::Ev::new("leaf_stats").raw("stats", &stats_data(stats).json()),
+    );
+}
